@@ -53,6 +53,56 @@ def reparam(spec, rng, boxes=BOXES):
     return s
 
 
+def siblings(spec, limit=8):
+    """models over the same ids that differ from `spec` in ONE nested place: a nested AtLeast/AtMost threshold moved by one (both ways, and the
+    magnitude pair 1<->2 whose negatives share a CPython hash), or a nested integer leaf's bound -1<->-2: the call-history prefix for the
+    "every history" reading"""
+    SW = {1: 2, 2: 1, -1: -2, -2: -1}
+    places = []
+
+    def enum(n, path, depth):
+        if n["t"] == "var":
+            if depth >= 2 and (n.get("lo") in SW or n.get("hi") in SW) and (n.get("lo", 0), n.get("hi", 1)) != (0, 1):
+                places.append((path, "box"))
+            return
+        if depth >= 1 and n["t"] in ("AtLeast", "AtMost") and isinstance(n.get("value"), int):
+            places.append((path, "value"))
+        for k, c in enumerate(n["ch"]):
+            enum(c, path + (k,), depth + 1)
+    enum(spec, (), 0)
+    out = []
+    for path, what in places:
+        variants = ("swap", 1, -1) if what == "value" else ("swap",)
+        for var in variants:
+            s = copy.deepcopy(spec)
+            n = s
+            for k in path:
+                n = n["ch"][k]
+            if what == "value":
+                v = n["value"]
+                nv = SW.get(v) if var == "swap" else v + var
+                if nv is None or nv == v or (var != "swap" and SW.get(v) == nv):
+                    continue
+                n["value"] = nv
+            else:
+                lo, hi = SW.get(n["lo"], n["lo"]), SW.get(n["hi"], n["hi"])
+                if lo > hi:
+                    continue
+                # the same leaf id must keep one definition throughout the model
+                _rebox(s, n["id"], lo, hi)
+            out.append(s)
+    return out[:limit]
+
+
+def _rebox(s, lid, lo, hi):
+    if s["t"] == "var":
+        if s["id"] == lid:
+            s["lo"], s["hi"] = lo, hi
+        return
+    for c in s["ch"]:
+        _rebox(c, lid, lo, hi)
+
+
 def _lo(c):
     return c.get("lo", 0) if c["t"] == "var" else 0
 
